@@ -1317,6 +1317,8 @@ def judge_traces(ctx, traces, tag, r, scenario=None):
         last = r.error_trace[-1][1] if r.error_trace else {}
         tid, l = last.get("tid"), last.get("l")
         tr = traces[tid - 1] if isinstance(tid, int) else None
+        if tr and tr["node"] == "synthetic":
+            raise MachineryError("DhtStoreTrace rejects a well-behaved synthetic history (%s at event %s)" % (r.violated, l))
         if r.violated != "TraceAccepted" and isinstance(l, int):
             l -= 1                            # a state invariant fails in the state the offending event produced
         ev = tr["events"][l - 1] if tr and isinstance(l, int) and 0 < l <= len(tr["events"]) else None
@@ -1473,7 +1475,7 @@ GRAPHS = (("DhtStore_tokens.cfg", "disc", ("FindRequest", "RotateSecrets", "Stor
           # tokens x wall clock: the node's own token_maintenance timer (left running) against the validity window
           ("DhtStore_window.cfg", "dht", ("FindRequest", "RotateSecrets", "StoreRequest", "Clean", "Tick")))
 BUDGET = {"quick": {"DhtStore_tokens.cfg": 8000, "DhtStore_versions.cfg": 4000, "DhtStore_expiry.cfg": 6000,
-                    "DhtStore_limits.cfg": 3000, "DhtStore_stale.cfg": 4000, "DhtStore_window.cfg": 3000}}
+                    "DhtStore_limits.cfg": 3000, "DhtStore_stale.cfg": 3500, "DhtStore_window.cfg": 2500}}
 
 
 def run(tier, seed, replay=None):
@@ -1580,7 +1582,7 @@ def _run(ctx, tier, seed, replay):
         ctl_window = pool.submit(model, "DhtStore_tokens.cfg", False, KeepSecrets="3")
         ctl_yield = pool.submit(model, "DhtStore_stale.cfg", False, ExpiredYields="TRUE")
         ctl_period = pool.submit(model, "DhtStore_window.cfg", False, RotatePeriod="4")
-        ctl_notimer = pool.submit(model, "DhtStore_window.cfg", False, RotatePeriod="0")
+        ctl_notimer = None if quick else pool.submit(model, "DhtStore_window.cfg", False, RotatePeriod="0")
         lk_cfgs = ["DhtLookup_quick.cfg"] if quick else ["DhtLookup_thorough.cfg", "DhtLookup_len4.cfg"]
 
         def lookup_model(cfgname):
@@ -1603,6 +1605,8 @@ def _run(ctx, tier, seed, replay):
             if stores < 20 or not sc.lookups or not any(ob.stats.get("clean") for ob in sc.observers.values()):
                 raise MachineryError("recorded run is vacuous: %d stores, %d lookups" % (stores, len(sc.lookups)))
         phase("record_network_runs")
+        syn = synthetic_histories()
+        scen[0][1].extend(syn["window_ok"] + syn["stale_ok"])      # the well-behaved twins of the controls ride along
         t_jobs = [(tr, "trace%d" % i, pool.submit(tlc_traces, tr, "trace%d" % i, tmp, ctx.eq)) for i, (_sc, tr) in enumerate(scen)]
         l_jobs = [(sc.lookups, "lookups%d" % i, pool.submit(tlc_lookups, sc.lookups, "lookups%d" % i, tmp))
                   for i, (sc, _tr) in enumerate(scen)]
@@ -1616,8 +1620,7 @@ def _run(ctx, tier, seed, replay):
                   ("lookup reporting data of an unverifiable signature is rejected", pool.submit(tlc_lookups, [bad1], "ctl3", tmp)),
                   ("lookup reporting an older verified version is rejected", pool.submit(tlc_lookups, [bad2], "ctl4", tmp))]
 
-        syn = synthetic_histories()
-        s_jobs = {name: pool.submit(tlc_traces, tr, "syn-" + name, tmp, ctx.eq) for name, tr in syn.items()}
+        s_jobs = {name: pool.submit(tlc_traces, syn[name], "syn-" + name, tmp, ctx.eq) for name in ("window_bad", "stale_bad")}
 
         # ---- R: graphs
         graphs = {}
@@ -1678,9 +1681,10 @@ def _run(ctx, tier, seed, replay):
         r, _ = ctl_period.result()
         ctx.control("specification whose maintenance timer has the period of the whole validity window honours tokens past the window",
                     r.violated == "StoreNeedsOwnFreshToken")
-        r, _ = ctl_notimer.result()
-        ctx.control("specification in which rotation is not tied to the clock honours tokens past the window",
-                    r.violated == "StoreNeedsOwnFreshToken")
+        if ctl_notimer is not None:
+            r, _ = ctl_notimer.result()
+            ctx.control("specification in which rotation is not tied to the clock honours tokens past the window",
+                        r.violated == "StoreNeedsOwnFreshToken")
 
         # ---- R: simulated behaviours of the large configuration
         if not quick and len(ctx.violations) < 3:
@@ -1707,9 +1711,6 @@ def _run(ctx, tier, seed, replay):
         for name, j in c_jobs:
             ctx.control(name, not j.result().ok)
         res = {name: j.result() for name, j in s_jobs.items()}
-        for name in ("window_ok", "stale_ok"):
-            if not res[name].ok:
-                raise MachineryError("DhtStoreTrace rejects the well-behaved synthetic history %s: %s" % (name, res[name].violated))
         ctx.control("history in which a token is honoured 601 s after it was handed out is rejected (599 s is accepted)",
                     res["window_bad"].violated == "StoreNeedsOwnFreshToken")
         ctx.control("history in which an older version replaces an expired, not yet cleaned newer one is rejected",
